@@ -14,7 +14,7 @@ BUDGET = {'quick': 500, 'thorough': 40000}
 TIME = {'quick': 100, 'thorough': 800}
 RULE = ('histories: action kind (snapshot/log/metric/span) x fire_count text x fire_period text x window x up to 40 '
         'hits with scripted clock (boundary spacings: exactly period, +-1 ns, backwards steps) and per-hit condition '
-        '(true/false/raising) and, in 30% of the histories, unrelated configuration changes (register/unregister of another tracepoint through the real TracepointConfigService) between hits, driven through the real TriggerHandler.trace_call; a labelled stream in which the service re-sends the tracepoint in a later UPDATE (compared with the model's per-installation run; the statement's reading is the known finding C04/update-resets-count); one tracepoint yielding sibling actions (snapshot+metrics+span, metric processor failing part-way: the hit still counts) judged per action; several tracepoints with different limits on one line (merged into one trigger or separate triggers) judged per tracepoint; schedules: all 20 interleavings of '
+        '(true/false/raising) and, in 30% of the histories, unrelated configuration changes (register/unregister of another tracepoint through the real TracepointConfigService) between hits, driven through the real TriggerHandler.trace_call; a labelled stream in which the service re-sends the tracepoint in a later UPDATE (compared with the per-installation run of the model; the reading of the statement is the known finding C04/update-resets-count); one tracepoint yielding sibling actions (snapshot+metrics+span, metric processor failing part-way: the hit still counts) judged per action; several tracepoints with different limits on one line (merged into one trigger or separate triggers) judged per tracepoint; schedules: all 20 interleavings of '
         '2 threads x (check, process, record) forced with gates inside the condition and a watch. A case is '
         'non-trivial when at least one hit is rejected by a limit and at least one collects (or, for schedules, when '
         'the threads overlap). Distinct = distinct canonical JSON of the case.')
